@@ -169,6 +169,14 @@ isal_aes_xts_dec_128_expanded_key(const uint8_t *k2, const uint8_t *k1,
         if (memcmp(k1, k2, 16 * 11) == 0)
                 return ISAL_CRYPTO_ERR_XTS_SAME_KEYS;
 
+        /*
+         * k1 is a decryption schedule and k2 an encryption schedule, so equal keys never give
+         * equal buffers: compare the two round keys both schedules hold untransformed
+         * (the first of one is the last of the other)
+         */
+        if (memcmp(k1, k2 + 16 * 10, 16) == 0 && memcmp(k1 + 16 * 10, k2, 16) == 0)
+                return ISAL_CRYPTO_ERR_XTS_SAME_KEYS;
+
         if (isal_self_tests())
                 return ISAL_CRYPTO_ERR_SELF_TEST;
 #endif
@@ -313,6 +321,14 @@ isal_aes_xts_dec_256_expanded_key(const uint8_t *k2, const uint8_t *k1,
 #ifdef FIPS_MODE
         /* Compare entire expanded keys (16*15 bytes) */
         if (memcmp(k1, k2, 16 * 15) == 0)
+                return ISAL_CRYPTO_ERR_XTS_SAME_KEYS;
+
+        /*
+         * k1 is a decryption schedule and k2 an encryption schedule, so equal keys never give
+         * equal buffers: compare the two round keys both schedules hold untransformed
+         * (the first of one is the last of the other)
+         */
+        if (memcmp(k1, k2 + 16 * 14, 16) == 0 && memcmp(k1 + 16 * 14, k2, 16) == 0)
                 return ISAL_CRYPTO_ERR_XTS_SAME_KEYS;
 
         if (isal_self_tests())
